@@ -34,6 +34,17 @@ def gen_cases_for(seed_, n):
                 opts["dkf"] = rng.sample(keys, min(len(keys), rng.randint(1, 3)))
                 if rng.random() < 0.2:
                     opts["dkf"].append("no_such_key")
+            if rng.random() < 0.3:
+                # names that are *not* keys of the data but look like one (snake_case / other case / plural of a real key):
+                # only the exact key names a field
+                near = set()
+                for k in rng.sample(keys, min(len(keys), 4)):
+                    near |= {re.sub(r"(?<=[a-z0-9])([A-Z])", r"_\1", k).replace("-", "_").replace(" ", "_").lower(), k.lower(), k.upper(),
+                             k.capitalize(), k + "s", k.rstrip("s"), k.replace("_", "")}
+                near -= set(keys)
+                near.discard("")
+                if near:
+                    opts["dkf"] = list(opts.get("dkf") or []) + rng.sample(sorted(near), min(len(near), 2))
             if rng.random() < 0.7:
                 pats = [rng.choice(PATTERNS) for _ in range(rng.randint(1, 2))]
                 if rng.random() < 0.3:
@@ -328,6 +339,12 @@ def cli_cases(v, seed_, n):
 
         def run(job):
             i, d, argv, samples, fw, pats, dkf = job
+            if i % 4 >= 2:
+                # the same command line on a Cli object that was configured and run before with other (wider) dict-keys options
+                from .. import clireuse
+                allkeys = sorted(set(gen.collect_keys(samples)))
+                first = ["-m", "Root", "in.json", "-f", fw, "--dkf"] + (allkeys[:6] or ["x"]) + ["--dkr", r".*", r"k\d+"]
+                return job, clireuse.run(first, argv, d, again=(i % 8 >= 6))
             return job, subprocess.run([PY, "-m", "json_to_models"] + argv, capture_output=True, text=True, cwd=d, env=child_env(), timeout=300)
 
         with ThreadPoolExecutor(max_workers=12) as ex:
@@ -340,7 +357,7 @@ def cli_cases(v, seed_, n):
             opts = {"framework": fw, "flat": True, "merge": [["exact"]], "max_literals": 10, "convert_unicode": True,
                     "registry": ["IntString", "FloatString", "BooleanString"], "dkf": dkf, "dkr": pats, "post_init_converters": False, "meta": False}
             st, wit, cnt, why = judge_module(r.stdout, fw, samples, opts)
-            cnt = dict(cnt, cli_runs=1, cli_anchor_sensitive=i % 2, cli_judged=int(st in ("held", "violated")))
+            cnt = dict(cnt, cli_runs=1, cli_anchor_sensitive=i % 2, cli_judged=int(st in ("held", "violated")), cli_object_reconfigured=int(i % 4 >= 2))
             v.add(case, {"status": st, "witnesses": wit, "counters": cnt, "why": why, "digest": digest(case),
                          "nontrivial": cnt.get("mapping_objects", 0) >= 1 and cnt.get("model_objects", 0) > len(samples)},
                   sample_view={"argv": argv, "samples": samples[:2]})
@@ -364,4 +381,4 @@ def main():
     for c, r in zip(cases, results):
         v.add(c, r, sample_view={"samples": c["models"][0][1][:2], "dkf": c["opts"]["dkf"], "dkr": c["opts"]["dkr"]})
     cli_cases(v, seed(), 120 if tier() == "quick" else 1500)
-    return v.finish(floor_nontrivial=100, monitors_required=("mapping_objects", "model_objects", "positions", "cli_runs", "cli_anchor_sensitive", "cli_judged"))
+    return v.finish(floor_nontrivial=100, monitors_required=("mapping_objects", "model_objects", "positions", "cli_runs", "cli_anchor_sensitive", "cli_judged", "cli_object_reconfigured"))
